@@ -313,7 +313,7 @@ func refreshRouteCases(c *core.Ctx) {
 	}
 	cur := p.Field(out, "AdjRIBOut", "exportFilterChain")
 	pend := p.Field(out, "AdjRIBOut", "exportFilterChainPending")
-	rm := p.Func(out + ".(*AdjRIBOut).removePath")
+	rm := p.Func(out + ".(*AdjRIBOut).removeExportedPath")
 	ad := p.Func(out + ".(*AdjRIBOut).addPath")
 	// locals: (path, reject) of each chain
 	var curPath, curRej, newPath, newRej types.Object
